@@ -288,7 +288,15 @@ def rule_orderins(ctx):
         yield ob(R, f, "%s:visits-all-reference-patterns" % q, len(loops) == 1, "the reference pattern list is traversed completely (enumerate(reference_patterns))")
 
 
+def rule_labellist(ctx):
+    from . import c13
+
+    for o in c13.rule_labellist(ctx, rule="C08.LABELLIST"):
+        yield o
+
+
 RULES = [
+    ("C08.LABELLIST", 7, rule_labellist),
     ("C08.AFFINE", 30, rule_affine),
     ("C08.EQONLY", 12, rule_eqonly),
     ("C08.ORDERINS", 18, rule_orderins),
